@@ -345,6 +345,13 @@ func (ms *MultiplexerSignal) InsertSignal(signal Signal, startBit int, groupIDs 
 		return ms.errorf(insErr)
 	}
 
+	if ms.hasParentMsg() {
+		if err := ms.parentMsg.verifyNestedSignalNames(signal); err != nil {
+			insErr.Err = err
+			return ms.errorf(insErr)
+		}
+	}
+
 	sigID := signal.EntityID()
 	isPresent := ms.signals.hasKey(sigID)
 	isFixed := ms.fixedSignals.hasKey(sigID)
